@@ -11,6 +11,7 @@
 #include <fcntl.h>
 #include <sys/syscall.h>
 #include <sys/wait.h>
+#include <signal.h>
 
 namespace vf {
 static int g_fd_floor(1 << 30);
@@ -122,6 +123,10 @@ static Reg r_crash("crash", [](std::istringstream& is) {
 		if (pid == 0) { close(pp[0]); child_run(dir, name, pre, target, pp[1]); }
 		close(pp[1]);
 		done = 0; count = -1;
+		// a child forked from a process with other threads can inherit a lock that nobody will release: it gets 20 s
+		int st(0); bool exited(false);
+		for (int i(0); i < 20000 && !exited; ++i) { exited = waitpid(pid, &st, WNOHANG) == pid; if (!exited) usleep(1000); }
+		if (!exited) { kill(pid, SIGKILL); waitpid(pid, &st, 0); close(pp[0]); return -2; }
 		unsigned char b;
 		while (read(pp[0], &b, 1) == 1)
 		{
@@ -129,12 +134,12 @@ static Reg r_crash("crash", [](std::istringstream& is) {
 			done = b;
 		}
 		close(pp[0]);
-		int st(0); waitpid(pid, &st, 0);
 		return WIFEXITED(st) ? WEXITSTATUS(st) : 100 + (WIFSIGNALED(st) ? WTERMSIG(st) : 0);
 	};
 	int done(0); long n(0);
 	wipe();
-	const int rc0(run_child(-1, done, n));
+	int rc0(run_child(-1, done, n));
+	for (int retry(0); rc0 == -2 && retry < 3; ++retry) { wipe(); rc0 = run_child(-1, done, n); }
 	if (rc0 != 1 || n < 0) return std::string("{\"error\":\"dry run failed rc=") + std::to_string(rc0) + "\"}";
 	J out;
 	out.k("n").num(n);
@@ -143,7 +148,8 @@ static Reg r_crash("crash", [](std::istringstream& is) {
 	{
 		wipe();
 		long cnt(0);
-		const int rc(run_child(k, done, cnt));
+		int rc(run_child(k, done, cnt));
+		for (int retry(0); rc == -2 && retry < 3; ++retry) { wipe(); rc = run_child(k, done, cnt); }
 		J r;
 		r.k("k").num(k); r.k("done").num(done); r.k("rc").num(rc);
 		{
